@@ -34,7 +34,7 @@
 (*                                  NEGATIVE control, TLC must refute it   *)
 (*   MC_TcpConn_C06Live             every handler path terminates          *)
 (*   MC_TcpConn_C15 / C15Thorough   every outcome class                    *)
-(*   MC_TcpConn_C18, C18One, C18Live1, C18Live   2 connections, listener   *)
+(*   MC_TcpConn_C18(Quick), C18One, C18Live1, C18Live  2 conns, listener   *)
 (*                                  shutdown, isolation, termination       *)
 (*   Gen_TcpConn_*                  behaviour generation (TcpConnGen.tla)  *)
 (*   TcpConnTrace / TcpConnTraceM   records of the real code: property     *)
